@@ -29,6 +29,8 @@ type CaseC16 struct {
 	NDFoodYaml bool   `json:"nd_food_yaml,omitempty"` // a food.yaml exists in the cwd
 	NDNamedBy  string `json:"nd_named_by,omitempty"`  // "", "flag", "env", "config"
 	NDFalse    bool   `json:"nd_false,omitempty"`     // the switch is written --no-database=false: the book must be used as usual
+	// CfgSymlink: the configuration file is reached through a symbolic link (a dotfiles repository)
+	CfgSymlink bool `json:"cfg_symlink,omitempty"`
 	// DefaultSpelling: the flag (and environment) value of the book and log paths is spelled exactly like
 	// the documented default (food.yaml / log.yaml); it must still win over the configuration file
 	DefaultSpelling bool   `json:"default_spelling,omitempty"`
@@ -65,6 +67,7 @@ func genC16(thorough bool) func(t *rapid.T) Case {
 		c.NDNamedBy = rapid.SampledFrom([]string{"", "flag", "env", "config"}).Draw(t, "nd_named_by")
 		c.NDFalse = rapid.IntRange(0, 3).Draw(t, "nd_false") == 3
 		c.DefaultSpelling = rapid.IntRange(0, 3).Draw(t, "default_spelling") == 3
+		c.CfgSymlink = rapid.IntRange(0, 2).Draw(t, "cfg_symlink") == 2
 		return c
 	}
 }
@@ -177,7 +180,11 @@ func (c *CaseC16) build(cell cellC16, argvTail []string, logLayout string, chain
 		w.Env["HR_CONFIG"] = cfgPath
 	}
 	if cell.cfgFile {
-		w.Files = append(w.Files, FileSpec{Path: cfgPath, Kind: "file", Data: ini.String(), Plan: ReadPlan{FaultAt: -1}})
+		kind := "file"
+		if c.CfgSymlink {
+			kind = "symlink"
+		}
+		w.Files = append(w.Files, FileSpec{Path: cfgPath, Kind: kind, Data: ini.String(), Plan: ReadPlan{FaultAt: -1}})
 	}
 	w.Argv = append(append([]string{"hranoprovod-cli"}, g...), argvTail...)
 	return w
